@@ -4,3 +4,4 @@ import WowVerif.Props.C17
 import WowVerif.Props.C18
 import WowVerif.Props.C03
 import WowVerif.Props.C08
+import WowVerif.Props.C09
